@@ -35,11 +35,11 @@ OffText(o) == (IF o < 0 THEN <<45>> ELSE <<43>>) \o PadInt(AbsI(o) \div 60, 2) \
 M(body) == <<91>> \o body \o <<93>>
 \* markers: component letter + presentation + width
 Letters == {89, 77, 68, 100, 70, 87, 72, 104, 80, 109, 115, 102, 90, 122}
-Formats(l) == CASE l = 89 -> {<<>>, <<49>>, <<48, 49>>, <<48, 48, 48, 49>>, <<49, 111>>, <<44, 50, 45, 50>>, <<44, 42, 45, 50>>, <<48, 48, 48, 49, 44, 42, 45, 52>>}
-                [] l = 77 -> {<<>>, <<49>>, <<48, 49>>, <<49, 111>>, <<78>>, <<110>>, <<78, 110>>, <<78, 110, 44, 51, 45, 51>>, <<78, 44, 42, 45, 51>>, <<110, 44, 42, 45, 52>>, <<78, 110, 44, 49, 48, 45, 49, 50>>}
-                [] l = 68 -> {<<>>, <<49>>, <<48, 49>>, <<49, 111>>, <<48, 49, 111>>}
+Formats(l) == CASE l = 89 -> {<<>>, <<49>>, <<48, 49>>, <<48, 48, 48, 49>>, <<49, 111>>, <<44, 50, 45, 50>>, <<44, 42, 45, 50>>, <<48, 48, 48, 49, 44, 42, 45, 52>>, <<44, 50, 45, 42>>, <<44, 52, 45, 42>>, <<44, 42, 45, 42>>, <<44, 42>>}
+                [] l = 77 -> {<<>>, <<49>>, <<48, 49>>, <<49, 111>>, <<78>>, <<110>>, <<78, 110>>, <<78, 110, 44, 51, 45, 51>>, <<78, 44, 42, 45, 51>>, <<110, 44, 42, 45, 52>>, <<78, 110, 44, 49, 48, 45, 49, 50>>, <<78, 110, 44, 51, 45, 42>>, <<48, 49, 44, 50, 45, 42>>}
+                [] l = 68 -> {<<>>, <<49>>, <<48, 49>>, <<49, 111>>, <<48, 49, 111>>, <<44, 2 + 48, 45, 42>>, <<44, 49, 45, 42>>}
                 [] l = 100 -> {<<>>, <<49>>, <<48, 48, 49>>, <<49, 111>>}
-                [] l = 70 -> {<<>>, <<78>>, <<110>>, <<78, 110>>, <<78, 110, 44, 51, 45, 51>>, <<78, 44, 42, 45, 50>>, <<110, 44, 42, 45, 53>>, <<49>>}
+                [] l = 70 -> {<<>>, <<78>>, <<110>>, <<78, 110>>, <<78, 110, 44, 51, 45, 51>>, <<78, 44, 42, 45, 50>>, <<110, 44, 42, 45, 53>>, <<49>>, <<78, 110, 44, 51, 45, 42>>}
                 [] l = 87 -> {<<>>, <<49>>, <<48, 49>>, <<49, 111>>}
                 [] l = 72 -> {<<>>, <<49>>, <<48, 49>>}
                 [] l = 104 -> {<<>>, <<49>>, <<48, 49>>}
@@ -47,7 +47,7 @@ Formats(l) == CASE l = 89 -> {<<>>, <<49>>, <<48, 49>>, <<48, 48, 48, 49>>, <<49
                 [] l = 109 -> {<<>>, <<49>>, <<48, 49>>}
                 [] l = 115 -> {<<>>, <<49>>, <<48, 49>>}
                 [] l = 102 -> {<<>>, <<49>>, <<48, 49>>, <<48, 48, 49>>, <<48, 48, 48, 48, 48, 49>>}
-                [] l \in {90, 122} -> {<<>>, <<48, 49, 58, 48, 49>>, <<48, 49, 58, 48, 49, 116>>, <<48, 49, 48, 49>>, <<48, 49, 48, 49, 116>>, <<48, 49, 46, 48, 49>>}
+                [] l \in {90, 122} -> {<<>>, <<90>>, <<48, 49, 58, 48, 49>>, <<48, 49, 58, 48, 49, 116>>, <<48, 49, 48, 49>>, <<48, 49, 48, 49, 116>>, <<48, 49, 46, 48, 49>>}
 Markers == UNION {{M(<<l>> \o f) : f \in Formats(l)} : l \in Letters}
 \* pictures from the round-trip set of the statement
 RtPictures == { <<>>,
@@ -56,7 +56,8 @@ RtPictures == { <<>>,
 BadPictures == { <<91, 89, 93, 45, 91, 77, 48, 49>>, <<91, 89, 93, 91>>, <<91, 68, 49, 111, 93, 32, 91, 77, 78, 110>>, <<91, 89, 93, 32, 91, 93>>, <<91, 89, 93, 91, 120, 93>>,
                  <<91, 89, 93, 91, 89, 44, 51, 45, 50, 93>>, <<91, 72, 93, 58, 91, 109, 93, 58, 91, 115>>,        \* a well-formed marker first, then [M01  [  [MNn  []  [x]  [Y,3-2]  [s
                  <<91, 89>>, <<89, 93>>, <<91, 93>>, <<120>>, <<91, 89, 44, 93>>, <<91, 89, 44, 48, 93>>, <<91, 89, 44, 51, 45, 50, 93>>, <<91, 91, 89, 93>>, <<91, 89, 91, 93>> }
-BadOffsets == { <<43, 49>>, <<49, 50, 48, 48, 48>>, <<43, 49, 50, 58, 48, 48>>, <<85, 84, 67>>, <<43, 48, 97, 48, 48>>, <<45, 48, 48, 48>> }
+BadOffsets == { <<43, 49>>, <<49, 50, 48, 48, 48>>, <<43, 49, 50, 58, 48, 48>>, <<85, 84, 67>>, <<43, 48, 97, 48, 48>>, <<45, 48, 48, 48>>,
+                <<43, 45, 49, 45, 50>>, <<43, 43, 49, 48, 48>>, <<45, 48, 49, 43, 53>>, <<43, 32, 49, 48, 48>>, <<43, 49, 46, 48, 48>> }    \* +-1-2  ++100  -01+5  "+ 100"  +1.00
 
 From(d, t, p, hasP, tz, hasTz) == [mode |-> "date", flags |-> [fn |-> "from", day |-> d, msod |-> t] @@ (IF hasP THEN [pic |-> p] ELSE <<>>) @@ (IF hasTz THEN [tz |-> tz] ELSE <<>>)]
 Rt(d, t, p, hasP, tz) == [mode |-> "date", flags |-> [fn |-> "rt", day |-> d, msod |-> t, tz |-> tz] @@ (IF hasP THEN [pic |-> p] ELSE <<>>)]
@@ -68,6 +69,8 @@ IsoText(d, t) == LET cv == Civil(d) IN
 
 SmallTimes == {0, 43200000, 45296789, 86399999}
 Init == /\ \/ \E mk \in Markers, d \in EdgeDays, t \in SmallTimes, o \in {0, 0 - 30, 330} : c = From(d, t, mk, TRUE, OffText(o), TRUE)
+           \* the time-zone component in every whole-hour offset (and a few others)
+           \/ \E l \in {90, 122}, f \in Formats(90), d \in {0, D(2018, 6, 15)}, o \in {60 * k : k \in (0 - 14)..14} \cup {30, 0 - 570, 345} : c = From(d, 45296789, M(<<l>> \o f), TRUE, OffText(o), TRUE)
            \/ \E d \in EdgeDays, t \in EdgeTimes, o \in Offsets : c = From(d, t, <<>>, FALSE, OffText(o), TRUE)
            \/ \E d \in EdgeDays, t \in EdgeTimes : c = From(d, t, <<>>, FALSE, <<>>, FALSE)
            \* the third round-trip picture has no [f001]: it represents whole seconds
